@@ -135,6 +135,12 @@ impl<S: Read + Write> RdpClient<S> {
         }
     }
 
+    /// Verification hook: name of the current activation state
+    #[cfg(feature = "verif")]
+    pub fn verif_state(&self) -> &'static str {
+        self.global.verif_state()
+    }
+
     /// Close client is indeed close the switch layer
     pub fn shutdown(&mut self) -> RdpResult<()> {
         self.mcs.shutdown()
